@@ -243,12 +243,9 @@ def raw_frame(payload: bytes) -> bytes:
 
 
 def request_frame(req: dict[str, Any]) -> bytes:
-    from mypy.dmypy_util import send
-    from mypy.ipc import IPCBase
-    b = IPCBase("c16-recorder", None)
-    b.connection = _Rec()  # type: ignore[assignment]
-    send(b, req)
-    return bytes(b.connection.data)  # type: ignore[attr-defined]
+    """What a raw client puts on the wire: ASCII JSON (lone surrogates as \\udXXX escapes) in the repository's framing.
+    (The repository's own `send` is the code under test on the daemon side; a client is free to serialise itself.)"""
+    return raw_frame(json.dumps(req).encode("ascii"))
 
 
 def recorded_request(kind: str) -> dict[str, Any]:
